@@ -77,7 +77,12 @@ def build_case(rng, root):
     """Writes the tree; -> (cart path, expected candidates (list of bytes), features, description)."""
     feats = set()
     tree = {}
-    cartdir = os.path.join(root, rng.choice(('', 'games', 'a/b')))
+    where = rng.choice(('', 'games', 'a/b', 'CARTS', 'CARTS'))
+    if where == 'CARTS':
+        # the cart lives in a project folder inside the (fake-HOME) PICO-8 carts folder; targets are still named relative to the cart
+        where = 'home/.lexaloffle/pico-8/carts/' + rng.choice(('proj', 'proj/src'))
+        feats.add('cart_inside_carts_folder')
+    cartdir = os.path.join(root, where)
     os.makedirs(cartdir, exist_ok=True)
 
     def put(path, data):
@@ -208,12 +213,21 @@ def run_case(ctx, rng, root):
 def judge(ctx, cart, case):
     from pico8.game import file as p8file
     exp, glued, desc, missing = case['expected'], case['glued'], case['targets'], case['missing']
+    root_dir = cart[:cart.index(case['cart'])] if case['cart'] in cart else os.path.dirname(cart)
+    old_home = os.environ.get('HOME')
+    os.environ['HOME'] = os.path.join(root_dir, 'home')
     try:
-        g = p8file.from_file(cart)
-        got = b''.join(g.lua.to_lines())
-        err = None
-    except Exception as e:
-        err = e
+        try:
+            g = p8file.from_file(cart)
+            got = b''.join(g.lua.to_lines())
+            err = None
+        except Exception as e:
+            err = e
+    finally:
+        if old_home is None:
+            os.environ.pop('HOME', None)
+        else:
+            os.environ['HOME'] = old_home
     ctx.monitor('carts_loaded')
     if missing:
         ctx.monitor('missing_target_cases')
@@ -263,7 +277,7 @@ def gates(m, tier):
     missed = []
     for k in ('target_lua', 'target_p8', 'target_png', 'target_in_subdir', 'target_no_final_newline', 'tab_selector_inner', 'tab_selector_last',
               'tab_selector_beyond', 'include_first_line', 'include_last_line', 'adjacent_includes', 'several_includes', 'nested_include_literal',
-              'directive_whitespace_variant', 'missing_target', 'png_raw', 'png_compressed', 'includes_0', 'same_target_twice'):
+              'directive_whitespace_variant', 'missing_target', 'png_raw', 'png_compressed', 'includes_0', 'same_target_twice', 'cart_inside_carts_folder'):
         if f.get(k, 0) < 5:
             missed.append('%s seen %d times' % (k, f.get(k, 0)))
     if mon.get('splices_compared', 0) < 200:
